@@ -14,14 +14,15 @@ E == Trace[l]
 
 Stat0 == [traces |-> 0, consume_calls |-> 0, sessions |-> 0, claims |-> 0, quick_exits |-> 0,
           msgs |-> 0, marks |-> 0, requests |-> 0, faulty_answers |-> 0, commits_after_cleanup |-> 0,
-          fenced_rejoins |-> 0, cleanups |-> 0, start_checks_committed |-> 0, errors_channels_closed |-> 0]
+          fenced_rejoins |-> 0, cleanups |-> 0, start_checks_committed |-> 0, errors_channels_closed |-> 0, sync_plans |-> 0]
 Bump(s, f, n) == [s EXCEPT ![f] = @ + n]
 B01(b) == IF b THEN 1 ELSE 0
 
 Count(e) ==
   LET isReq == e.ev \in {"join_req", "sync_req", "hb", "commit", "leave"}
       isAns == e.ev \in {"join_resp", "sync_resp", "hb", "commit", "leave"} IN
-  Bump(Bump(Bump(Bump(Bump(Bump(Bump(Bump(Bump(Bump(Bump(Bump(Bump(Bump(st,
+  Bump(Bump(Bump(Bump(Bump(Bump(Bump(Bump(Bump(Bump(Bump(Bump(Bump(Bump(Bump(st,
+    "sync_plans", B01(e.ev = "sync_plan")),
     "errors_channels_closed", B01(e.ev = "errors_closed")),
     "traces", B01(e.ev = "reset")),
     "consume_calls", B01(e.ev = "consume_call")),
